@@ -8,6 +8,7 @@ import (
 	"os"
 	"path"
 	"path/filepath"
+	"sort"
 	"strings"
 
 	"github.com/pgavlin/dawn/diff"
@@ -153,6 +154,9 @@ func dirSum(path string, dir *os.File) (string, error) {
 	if err != nil {
 		return "", err
 	}
+	// Hash entries in a stable order and include their names, so that the sum depends on
+	// neither the order in which the file system lists the directory nor misses renames.
+	sort.Slice(entries, func(i, j int) bool { return entries[i].Name() < entries[j].Name() })
 
 	h := sha256.New()
 	for _, entry := range entries {
@@ -160,7 +164,7 @@ func dirSum(path string, dir *os.File) (string, error) {
 		if err != nil {
 			return "", err
 		}
-		if _, err := h.Write([]byte(sum)); err != nil {
+		if _, err := fmt.Fprintf(h, "%q %s\n", entry.Name(), sum); err != nil {
 			return "", err
 		}
 	}
